@@ -8,14 +8,17 @@
 (* code file, summary counts and lines on the error channel.                                                *)
 EXTENDS Driver_MC, Json
 
-CONSTANT BigFirst      \* TRUE: bursts of more than 3 repetitions only as the first line of a file
+CONSTANT MaxLater,     \* lines of the files after the first one (<= MaxLines)
+         BigFirst,     \* TRUE: bursts of more than 3 repetitions only as the first line of a file
+         HistView      \* TRUE: the view also distinguishes what earlier files did (flags set, constructs left
+                       \* open, failed) although the ideal model forgets it - that is what C18 replays
 
 \* the variables of Driver_MC are reused: opts, done, cur, st, carry, globErr; the others stay as initialised
 Idle == UNCHANGED <<st1, pass, li, results, status, pc>>
 
 GInit == Init
 
-GAdd(ln) == /\ Len(cur) < MaxLines /\ ~st.d.fatal /\ ~Opened(st.c) /\ BurstOK(st, ln)
+GAdd(ln) == /\ Len(cur) < (IF done = <<>> THEN MaxLines ELSE MaxLater) /\ ~st.d.fatal /\ ~Opened(st.c) /\ BurstOK(st, ln)
             /\ (BigFirst /\ ln.n > 3) => cur = <<>>
             /\ cur' = Append(cur, ln)
             /\ st' = LineStep(opts, st, ln, 1)
@@ -31,7 +34,13 @@ GNextFile == /\ cur # <<>> /\ Len(done) + 1 < MaxFiles
              /\ UNCHANGED opts /\ Idle
 
 GNext == (\E ln \in Kinds : GAdd(ln)) \/ GNextFile
-GView == <<opts, Len(done), Len(cur), st.d, [st.c EXCEPT !.code = <<>>], carry, globErr>>
+\* what a finished file did to the assembler, as far as a leak could matter
+Did(lines) == [flags |-> {lines[i].f : i \in {j \in 1..Len(lines) : lines[j].k = "flag"}},
+               opens |-> {lines[i].t : i \in {j \in 1..Len(lines) : lines[j].k = "open"}},
+               exp   |-> \E i \in 1..Len(lines) : lines[i].k = "expect",
+               err   |-> \E i \in 1..Len(lines) : lines[i].k = "err"]
+GView == <<opts, Len(done), Len(cur), st.d, [st.c EXCEPT !.code = <<>>], carry, globErr,
+           IF HistView THEN [i \in 1..Len(done) |-> Did(done[i])] ELSE <<>>>>
 
 Run(fs) == [o |-> opts, files |-> fs, exp |-> Outcome(opts, fs)]
 TCover == (cur' # cur /\ cur' # <<>>) => PrintT(<<"TR", ToJson(Run(Append(done', cur')))>>)
